@@ -78,6 +78,10 @@ class Node:
                 signal.signal(signal.SIGINT, signal.SIG_DFL)
                 dn = os.open(os.devnull, os.O_WRONLY)
                 os.dup2(dn, 1)       # Fortran unit 6 chatter
+                if not os.environ.get('VERIF_NODE_STDERR'):
+                    # libhdf5 / faulthandler chatter when a node dies under
+                    # an injected fault; node deaths are reported as events
+                    os.dup2(dn, 2)
                 os.close(dn)
                 _child_main(p2c_r, c2p_w, root, np_seed, config or {})
             except BaseException:
